@@ -224,6 +224,15 @@ theorem expand_container (seq : SeqArg) (k : Kind) (ps : List Pattern) (rs : Lis
     (h : expandList ps = .ok rs) : expand seq (.cont k ps) = .ok (.cont k rs) := by
   simp [expand, h]
 
+/-- **container_seq_witness** (open finding C20-container-seq-nesting) — with `seq=True` a list of
+    two plain names stays a list of bare names, whereas each name alone becomes a 1-tuple:
+    `sympy.symbols(['x', 'y'], seq=True)` applies the flag to the items (`[(x,), (y,)]`), sympde
+    does not (same names, different nesting). -/
+theorem container_seq_witness :
+    expand (.some true) (.cont .list [.str ['x'], .str ['y']]) = .ok (.cont .list [.name ['x'], .name ['y']]) ∧
+    expand (.some true) (.str ['x']) = .ok (.cont .tuple [.name ['x']]) := by
+  constructor <;> rfl
+
 theorem expandList_spec (ps : List Pattern) (rs : List Res) :
     expandList ps = .ok rs ↔
       ps.length = rs.length ∧ ∀ i (hi : i < ps.length) (hj : i < rs.length), expand .none ps[i] = .ok rs[i] := by
@@ -372,6 +381,95 @@ theorem elements_of_pattern (sp : Space) (h : sp.isFn = true) (p : Layout) (item
   rw [hsh]
   exact elements_shape sp h .tuple _
 
+/-! ### the single-name entry point `element_of(V, pattern)` on a scalar / vector space -/
+
+/-- **element_of_spec** — for EVERY string (no grammar hypothesis) and a scalar / vector space:
+    `element_of` always goes through the expansion (space.py:65) and succeeds iff the expansion
+    is exactly one bare name, the result being the function of that (expanded, un-escaped) name
+    in that space; an expansion that is a container — several names, a trailing comma, a range —
+    is refused with 'To create multiple elements …' (`ValueError`), and every error of the
+    expansion ('no symbols given' for an empty / blank pattern, …) is passed on unchanged. -/
+theorem element_of_spec (sp : Space) (h : sp.isFn = true) (s : Str) :
+    (∀ el, elementOf sp (.str s) = .ok el ↔ ∃ n, expandStr .none s = .ok (.name n) ∧ el = sp.mk n) ∧
+    (∀ k items, expandStr .none s = .ok (.cont k items) → elementOf sp (.str s) = .error .multiple) ∧
+    (∀ e, expandStr .none s = .error e → elementOf sp (.str s) = .error e) := by
+  have hsp : isSpaceObj sp = true := by cases sp <;> simp_all [Space.isFn, isSpaceObj]
+  have key : elementOf sp (.str s) = match expandStr .none s with
+      | .error e => .error e
+      | .ok r => recElem sp r := by
+    unfold elementOf
+    simp only [hsp, Bool.not_true, Bool.false_eq_true, if_false, expand]
+    rfl
+  refine ⟨?_, ?_, ?_⟩
+  · intro el
+    rw [key]
+    cases hr : expandStr .none s with
+    | error e => simp
+    | ok r =>
+      cases r with
+      | name n =>
+        simp only [(element_single sp h n [] .tuple []).1]
+        constructor
+        · intro he; injection he with he; exact ⟨n, rfl, he.symm⟩
+        · rintro ⟨m, hm, rfl⟩
+          injection hm with hm; injection hm with hm; rw [hm]
+      | cont k items =>
+        simp only [(element_single sp h [] [] k items).2.2]
+        constructor
+        · intro he; cases he
+        · rintro ⟨m, hm, _⟩; injection hm with hm; cases hm
+  · intro k items hr
+    rw [key, hr]
+    exact (element_single sp h [] [] k items).2.2
+  · intro e hr
+    rw [key, hr]
+
+/-- **element_of_layout** — on the grammar: `element_of(V, pattern)` succeeds iff the pattern has
+    no trailing comma, no range that expands, and denotes exactly one name; padding blanks around
+    the name are dropped; two names separated by blanks or commas are refused. -/
+theorem element_of_layout (sp : Space) (h : sp.isFn = true) (p : Layout) (items : List Item)
+    (hp : p.WF) (hn : p.names = items.map Item.render) (hi : ∀ it ∈ items, it.Good) :
+    elementOf sp (.str p.render) =
+      match (p.tcomma.isSome || items.any Item.setsSeq), items.flatMap Item.den with
+      | false, [n] => .ok (sp.mk n)
+      | _, _ => .error .multiple := by
+  have hx := expand_spec p items hp hn hi none
+  simp only [Option.getD_none] at hx
+  have hs := element_of_spec sp h p.render
+  cases hf : (p.tcomma.isSome || items.any Item.setsSeq) with
+  | true =>
+    rw [hf] at hx
+    cases hd : items.flatMap Item.den with
+    | nil => rw [hd] at hx; exact hs.2.1 _ _ (by simpa [shape] using hx)
+    | cons x xs =>
+      rw [hd] at hx
+      cases xs with
+      | nil => exact hs.2.1 .tuple [.name x] (by simpa [shape] using hx)
+      | cons y ys => exact hs.2.1 .tuple _ (by simpa [shape] using hx)
+  | false =>
+    rw [hf] at hx
+    cases hd : items.flatMap Item.den with
+    | nil => rw [hd] at hx; exact hs.2.1 _ _ (by simpa [shape] using hx)
+    | cons x xs =>
+      rw [hd] at hx
+      cases xs with
+      | nil => exact (hs.1 _).mpr ⟨x, by simpa [shape] using hx, rfl⟩
+      | cons y ys => exact hs.2.1 .tuple _ (by simpa [shape] using hx)
+
+/-- **element_of_escaped** — a single name written with the escapes `\\,` `\\:` `\\ ` is one
+    function whose name holds the escaped characters themselves (`u\\ v` is named `u v`). -/
+theorem element_of_escaped (sp : Space) (h : sp.isFn = true) (ts : List Tok) (hne : ts ≠ [])
+    (hpl : ∀ c, Tok.plain c ∈ ts → PlainOK c) :
+    elementOf sp (.str (renderToks ts)) = .ok (sp.mk (ts.map Tok.value)) :=
+  ((element_of_spec sp h _).1 _).mpr ⟨_, expand_escaped ts hne hpl, rfl⟩
+
+/-- **element_of_blank** — an empty or all-blank pattern names nothing: 'no symbols given'. -/
+theorem element_of_blank (sp : Space) (h : sp.isFn = true) (w : Str) (hw : Blank w) :
+    elementOf sp (.str w) = .error .noSymbols := by
+  have := (blank_no_symbols w [] hw (by intro c hc; cases hc) .none).1
+  rw [List.append_nil] at this
+  exact (element_of_spec sp h w).2.2 _ this
+
 /-! ### non-vacuity: concrete patterns meet the hypotheses, and the model computes on them -/
 
 /-- the item `x(1:3)_(a:b)` -/
@@ -410,6 +508,15 @@ example : ∀ c, Tok.plain c ∈ [Tok.plain 'x', .esc .comma, .plain 'y'] → Pl
   rcases hc with rfl | rfl <;> exact ⟨by decide, by decide, by decide, by decide, by decide⟩
 example : elementOf (.product [.scalar "V", .vector "W"]) (.str "u, F".toList)
     = .ok (.cont .tuple [.fn false ['u'] "V", .fn true ['F'] "W"]) := by rfl
+example : elementOf (.scalar "V") (.str "  u ".toList) = .ok (.fn false ['u'] "V") := by rfl
+example : elementOf (.scalar "V") (.str "u\\ v".toList) = .ok (.fn false "u v".toList "V") := by rfl
+example : elementOf (.vector "W") (.str "p\\:q".toList) = .ok (.fn true "p:q".toList "W") := by rfl
+example : elementOf (.scalar "V") (.str "u v".toList) = .error .multiple := by rfl
+example : elementOf (.vector "W") (.str "u,".toList) = .error .multiple := by rfl
+example : elementOf (.scalar "V") (.str "".toList) = .error .noSymbols := by rfl
+example : elementOf (.vector "W") (.str "   ".toList) = .error .noSymbols := by rfl
+example : elementOf (.product [.scalar "V", .vector "W"]) (.str "u\\ 1  w".toList)
+    = .ok (.cont .tuple [.fn false "u 1".toList "V", .fn true ['w'] "W"]) := by rfl
 example : elementsOf (.scalar "V") (.str "u:3".toList)
     = .ok (.cont .tuple [.fn false "u0".toList "V", .fn false "u1".toList "V", .fn false "u2".toList "V"]) := by
   rfl
